@@ -80,8 +80,15 @@ def _env_objects(kind, r):
     """list of environment objects a recipe stands for (fan-out through shuffle(n=k) / branches)"""
     from coba.environments import Environments
     if kind == "seq":
-        from props.c01_components import SeqEnv
-        return [SeqEnv(r["tag"], r["inters"], r.get("batch"), bool(r.get("fail")))]
+        from props.c01_components import SeqEnv, Head
+        src = SeqEnv(r["tag"], r["inters"], r.get("batch"), bool(r.get("fail")))
+        if not r.get("pipe"):
+            return [src]
+        # phase 5: chunk() / chunk(cache=False) / cache() in front of the source, optionally fanned out behind the shared prefix
+        envs = _apply_ops(Environments(src), [[r["pipe"]]])
+        if r.get("heads"):
+            envs = envs.filter([Head(k) for k in r["heads"]])
+        return list(envs)
     if kind == "toy":
         from props.c01_components import ToyEnv
         base = ToyEnv(r["tag"], r["xs"], r.get("fail_at"), bool(r.get("params_fail")))
@@ -132,13 +139,26 @@ def _env_objects(kind, r):
 
 def _seq_script(L):
     from props.c06 import mk
-    return [dict(e, free=mk(e.get("free")), kw={k: mk(v) for k, v in e.get("kw", {}).items()}, ip={}, il={}) for e in L["script"]]
+    return [dict(e, free=mk(e.get("free")), kw={k: mk(v) for k, v in e.get("kw", {}).items()},
+                 ip={k: mk(v) for k, v in e.get("ip", [])} if L.get("info") else {},
+                 il={k: mk(v) for k, v in e.get("il", [])} if L.get("info") else {}) for e in L["script"]]
+
+
+def seq_env_objects(case):
+    """per environment OBJECT of a seq case (a recipe with `heads` fans out): the interactions a read yields, fail, batch"""
+    out = []
+    for r in case["envs"]:
+        if r.get("pipe") and r.get("heads"):
+            out += [dict(r, inters=r["inters"][:k]) for k in r["heads"]]
+        else:
+            out.append(r)
+    return out
 
 
 def _learner(kind, r):
     if kind == "seq":
         from props.c06_learners import RecLearner
-        return RecLearner(_seq_script(r), r["fmt"], r["has_score"], "aware", ())
+        return RecLearner(_seq_script(r), r["fmt"], r["has_score"], "aware", (), info=bool(r.get("info")))
     if kind == "toy":
         from props.c01_components import ToyLearner, ToyLearnerF
         if r.get("finish"):
@@ -627,14 +647,29 @@ def observe_seq(case):
         b = build(case)
         dummy_l = case["lrns"][0]
         envs, lrns, vals = [], [], []
-        for e, r in zip(b.envs, case["envs"]):
-            mr = c06.model_request({"cfg": {"learn": "on", "eval": "on", "record": []}, "learner": dict(dummy_l, kw_keys=()), "env": {"inters": r["inters"]}})
-            envs.append({"params": json.dumps(_plain(dict(SafeEnvironment(e).params)), sort_keys=True), "chunk": None,
+        from coba.environments import Chunk
+        tokens = {}
+        eobjs = seq_env_objects(case)
+        assert len(eobjs) == len(b.envs)
+        for e, r in zip(b.envs, eobjs):
+            mr = c06.model_request({"cfg": {"learn": "on", "eval": "on", "record": []}, "learner": dict(dummy_l, kw_keys=(), fmt="AP"), "env": {"inters": r["inters"]}})
+            chunk = None
+            try:
+                for pipe in reversed(list(e)):       # identity of the last Chunk pipe (what ChunkTasks groups by)
+                    if isinstance(pipe, Chunk):
+                        chunk = tokens.setdefault(id(pipe), len(tokens))
+                        break
+            except Exception:
+                chunk = None
+            envs.append({"params": json.dumps(_plain(dict(SafeEnvironment(e).params)), sort_keys=True), "chunk": chunk,
                          "inters": None if r.get("fail") else mr["env"], "batch": r.get("batch")})
         for l, r in zip(b.lrns, case["lrns"]):
-            mr = c06.model_request({"cfg": {"learn": "on", "eval": "on", "record": []}, "learner": dict(r, kw_keys=()), "env": {"inters": []}})
+            mr = c06.model_request({"cfg": {"learn": "on", "eval": "on", "record": []}, "learner": dict(r, kw_keys=(), fmt="AP" if r["fmt"] == "pmf" else r["fmt"]), "env": {"inters": []}})
             lrns.append({"params": json.dumps(_plain(dict(SafeLearner(l).params)), sort_keys=True), "has_score": bool(r["has_score"]),
-                         "script": mr["learner"]["script"]})
+                         "script": mr["learner"]["script"],
+                         # "rowlen2": (action, probability) tuples -- on a batched environment whose first batch has exactly two
+                         # rows SafeLearner.batch_order probes with one more predict (model: probeWrap)
+                         "kind": "pmf" if r["fmt"] == "pmf" else "info" if r.get("info") else "rowlen2" if r["fmt"] == "AP" else "plain"})
         for v, r in zip(b.vals, case["vals"]):
             vals.append({"params": json.dumps(_plain(dict(SafeEvaluator(copy.deepcopy(v)).params)), sort_keys=True), "seed": r.get("seed"),
                          "cfg": {"learn": r["learn"], "eval": r["eval"], "record": list(r["record"])}})
@@ -752,7 +787,99 @@ def gen_seq(rng, tier, real_p=0.02):
     case["runs"] = runs
     if rng.chance(0.3):
         case["rerun"] = True
+    seq_extend(case, Rng(runs[-1]["sched"], "seqx", len(envs), len(lrns)))
     return tame_real_runs(case)
+
+
+SEQ_PMFS = {2: [[(1, 2), (1, 2)], [(1, 4), (3, 4)], [(0, 1), (1, 1)]],
+            4: [[(1, 4)] * 4, [(1, 2), (0, 1), (1, 4), (1, 4)], [(1, 8), (1, 8), (1, 4), (1, 2)]],
+            3: [[(1, 2), (1, 4), (1, 4)], [(0, 1), (1, 2), (1, 2)], [(1, 4), (1, 2), (1, 4)]]}
+
+
+def seq_extend(case, xr):
+    """phase 5 (drawn from a PRNG derived from the case, the main recipe stream is unchanged): in 65 % of the seq cases
+    learners become PMF-answering (SafeLearner draws with CobaRandom(evaluator seed or experiment seed)) or write
+    learning_info, evaluators get own seeds, and environments get chunk() / chunk(cache=False) / cache() pipelines, half of
+    the chunked ones fanned out behind the shared prefix (`Head(k)`)"""
+    if not xr.chance(0.65):
+        return case
+    # batched environments (goal 2): learners answer with (a,p) tuples / {'action_prob'} dicts / PMFs (formats whose row length is
+    # static: 2 / dict / dict), no info writers (the batched info merge is not modelled)
+    batched = xr.chance(0.5)
+    for L in case["lrns"]:
+        u = xr.below(100)
+        if batched:
+            if L["fmt"] == "A":
+                L["fmt"] = "AP"
+            if 35 <= u < 60:
+                u = 99
+        if u < 35:
+            L["fmt"] = "pmf"
+            for e in L["script"]:
+                e["pm"] = [[n_, [list(w) for w in xr.choice(SEQ_PMFS[n_])]] for n_ in (2, 3, 4)]
+        elif u < 60:
+            L["info"] = True
+            for e in L["script"]:
+                e["ip"] = [[k, xr.choice([1, 2, "x", "yz"])] for k in ["info_p", "info_x"] if xr.chance(0.6)]
+                e["il"] = [[k, xr.choice([3, "l", 0])] for k in ["info_l", "info_x"] if xr.chance(0.5)]
+    for v in case["vals"]:
+        v["seed"] = xr.choice([None, None, 3, 5])
+    for r in case["envs"]:
+        if batched and xr.chance(0.8):
+            r["batch"] = xr.choice([1, 2, 2, 2, 2, 3])
+        if xr.chance(0.55):
+            r["pipe"] = "chunk_nocache" if r.get("fail") else xr.choice(["chunk", "chunk", "chunk_nocache", "cache"])
+            n = len(r["inters"])
+            if r["pipe"] != "cache" and not r.get("fail") and not r.get("batch") and xr.chance(0.5):
+                r["heads"] = [xr.below(n + 1), n]
+    total = len(seq_env_objects(case))
+    if case["mode"] == "product":
+        case["pe"] = list(range(total))
+    else:
+        case["triples"] = [[xr.below(total), t[1], t[2]] for t in case["triples"]]
+    return case
+
+
+def seq_directed_cases5():
+    """phase 5 corpus: a PMF learner shared by two environments and two SequentialCB objects (own seed 3 / experiment seed), an
+    info-writing learner, an ordinary one; a chunk()ed source fanned out into Head(2)/Head(4), a cache()d logged source"""
+    def q(a, b):
+        return {"f": [a, b]}
+    sim = [[["context", i], ["actions", {"l": ["a", "b", "c"]}], ["rewards", {"l": [q(i % 3, 2), q(1, 4), 1]}]] for i in range(4)]
+    log = [[["context", "c%d" % i], ["actions", {"l": [0, 1]}], ["rewards", {"l": [q(1, 2), q(i % 2, 1)]}],
+            ["action", i % 2], ["reward", q(i, 4)], ["probability", q(1, 2)]] for i in range(5)]
+    envs = [{"tag": 0, "inters": sim, "batch": None, "fail": False, "pipe": "chunk", "heads": [2, 4]},
+            {"tag": 1, "inters": log, "batch": None, "fail": False, "pipe": "cache"},
+            {"tag": 2, "inters": sim[:3], "batch": None, "fail": True, "pipe": "chunk_nocache"}]
+    pm = lambda a, b, c: [[2, a], [3, b], [4, c]]
+    lrns = [{"script": [{"idx": 0, "free": None, "p": [1, 2], "kw": {}, "s": [1, 2], "pm": pm([[1, 4], [3, 4]], [[1, 2], [1, 4], [1, 4]], [[1, 4]] * 4)},
+                        {"idx": 1, "free": None, "p": [1, 4], "kw": {}, "s": [1, 4], "pm": pm([[1, 2], [1, 2]], [[0, 1], [1, 2], [1, 2]], [[1, 4]] * 4)}],
+             "fmt": "pmf", "has_score": False},
+            {"script": [{"idx": 1, "free": None, "p": [3, 4], "kw": {}, "s": [1, 4], "ip": [["info_p", 1]], "il": [["info_l", "l"], ["info_p", 2]]},
+                        {"idx": 0, "free": None, "p": [1, 4], "kw": {}, "s": [1, 2], "ip": [["info_x", "x"]], "il": []}],
+             "fmt": "AP", "has_score": True, "info": True},
+            {"script": [{"idx": 2, "free": None, "p": [1, 1], "kw": {}, "s": [1, 2]}], "fmt": "AP", "has_score": False}]
+    vals = [{"record": ["reward", "action", "probability"], "learn": "on", "eval": "on", "seed": None},
+            {"record": ["reward", "action", "probability", "context"], "learn": "on", "eval": "on", "seed": 3},
+            {"record": ["reward", "action"], "learn": "off", "eval": "on", "seed": 5}]
+    base = {"kind": "seq", "seed": 2, "envs": envs, "lrns": lrns, "vals": vals}
+    runs = [{"cfg": [1, 0, 0], "how": "inproc", "sched": 0}, {"cfg": [2, 1, 2], "how": "sim", "sched": 11}, {"cfg": [1, 0, 3], "how": "inproc", "sched": 0},
+            {"cfg": [3, 0, 0], "how": "sim", "sched": 4}]
+    # batched sources: first batch of exactly 2 rows (orientation probe for (a,p) answers), batch 3 over 5 / 2 rows, batch 1, un-batched
+    benvs = [{"tag": 0, "inters": sim, "batch": 2, "fail": False, "pipe": "chunk"}, {"tag": 1, "inters": log, "batch": 3, "fail": False},
+             {"tag": 2, "inters": sim[:2], "batch": 3, "fail": False, "pipe": "cache"}, {"tag": 3, "inters": sim[:3], "batch": 1, "fail": False},
+             {"tag": 4, "inters": sim, "batch": None, "fail": False}]
+    blrns = [{"script": [{"idx": 0, "free": None, "p": [1, 2], "kw": {}, "s": [1, 2]}, {"idx": 1, "free": None, "p": [1, 4], "kw": {}, "s": [1, 4]},
+                         {"idx": 2, "free": None, "p": [1, 1], "kw": {}, "s": [1, 2]}], "fmt": "AP", "has_score": False},
+             {"script": [{"idx": 1, "free": None, "p": [3, 4], "kw": {}, "s": [1, 4]}, {"idx": 0, "free": None, "p": [1, 4], "kw": {}, "s": [1, 2]}],
+              "fmt": "dAP", "has_score": True}, lrns[0]]
+    bbase = {"kind": "seq", "seed": 7, "envs": benvs, "lrns": blrns, "vals": vals}
+    return [dict(base, mode="product", pe=[0, 1, 2, 3], pl=[0, 1, 2], pv=[0, 1, 2], runs=runs, rerun=True),
+            dict(base, mode="tuples", triples=[[0, 0, 0], [1, 0, 1], [1, 0, 0], [2, 1, 0], [0, 0, 0], [2, 0, 2], [3, 2, 1], [1, 1, 1]],
+                 runs=runs[:2] + [{"cfg": [2, 0, 0], "how": "real", "sched": 0}]),
+            dict(bbase, mode="product", pe=[0, 1, 2, 3, 4], pl=[0, 1, 2], pv=[0, 2], runs=runs, rerun=True),
+            dict(bbase, mode="tuples", triples=[[0, 0, 0], [4, 0, 0], [1, 0, 1], [2, 0, 0], [0, 1, 2], [3, 0, 2], [0, 2, 1], [0, 0, 0]],
+                 runs=runs[:3] + [{"cfg": [3, 1, 1], "how": "real", "sched": 0}])]
 
 
 # ------------------------------------------------------------------ observing the components (toy cases)
@@ -1551,6 +1678,96 @@ def write_generated_config(repo):
     return notes + ["C01Config: isMultiproc := %s; inProcess := %s; copyFlag := %s; extracted=%s" % (d["isMultiproc"], d["inProcess"], d["copyFlag"], extracted)]
 
 
+def extract_seed_exprs(repo):
+    """phase 5 translator: the expressions that choose the seed of `SafeLearner` (and of RejectionCB's own generator) in
+    coba/evaluators/sequential.py, as Lean terms `Option Nat` over `own : Option Nat` (the evaluator's `_seed`) and `exp : Nat`
+    (`CobaContext.store['experiment_seed']`, present during every Experiment.run).  Returns ({name: term}, notes)."""
+    import ast
+    defs, notes = {}, []
+
+    def is_own(n):
+        return isinstance(n, ast.Attribute) and n.attr == "_seed" and isinstance(n.value, ast.Name) and n.value.id == "self"
+
+    def is_store_get(n):
+        return (isinstance(n, ast.Call) and isinstance(n.func, ast.Attribute) and n.func.attr == "get" and n.args and not n.keywords
+                and isinstance(n.args[0], ast.Constant) and n.args[0].value == "experiment_seed"
+                and isinstance(n.func.value, ast.Attribute) and n.func.value.attr == "store")
+
+    def tr(n):
+        if is_own(n):
+            return "own"
+        if is_store_get(n):
+            return "(some exp)"             # with or without a default: the store holds the experiment seed during a run
+        if isinstance(n, ast.Constant) and n.value is None:
+            return "none"
+        if isinstance(n, ast.Constant) and isinstance(n.value, int) and not isinstance(n.value, bool) and n.value >= 0:
+            return "(some %d)" % n.value
+        if isinstance(n, ast.IfExp):
+            t = n.test
+            if isinstance(t, ast.Compare) and len(t.ops) == 1 and isinstance(t.comparators[0], ast.Constant) and t.comparators[0].value is None:
+                if isinstance(t.ops[0], ast.IsNot):
+                    return "(match %s with | some _ => %s | none => %s)" % (tr(t.left), tr(n.body), tr(n.orelse))
+                if isinstance(t.ops[0], ast.Is):
+                    return "(match %s with | some _ => %s | none => %s)" % (tr(t.left), tr(n.orelse), tr(n.body))
+            # a truthiness test: None and 0 are falsy
+            return "(match %s with | some 0 => %s | some _ => %s | none => %s)" % (tr(t), tr(n.orelse), tr(n.body), tr(n.orelse))
+        if isinstance(n, ast.BoolOp) and isinstance(n.op, ast.Or) and len(n.values) == 2:
+            return "(match %s with | some 0 => %s | some s => some s | none => %s)" % (tr(n.values[0]), tr(n.values[1]), tr(n.values[1]))
+        raise ValueError("seed expression not understood: " + ast.dump(n)[:120])
+
+    try:
+        with open(os.path.join(repo, "coba", "evaluators", "sequential.py"), encoding="utf-8") as f:
+            tree = ast.parse(f.read())
+        cls = {c.name: c for c in tree.body if isinstance(c, ast.ClassDef)}
+
+        def evaluate_of(name):
+            return next(f for f in cls[name].body if isinstance(f, ast.FunctionDef) and f.name == "evaluate")
+        ev = evaluate_of("SequentialCB")
+        binds = {}
+        for node in ast.walk(ev):
+            if isinstance(node, ast.Assign) and len(node.targets) == 1 and isinstance(node.targets[0], ast.Name) and node.targets[0].id == "seed":
+                binds["seed"] = node.value
+
+        def arg_of(fn, callee, idx):
+            for node in ast.walk(fn):
+                if isinstance(node, ast.Call) and isinstance(node.func, ast.Name) and node.func.id == callee and len(node.args) > idx:
+                    a = node.args[idx]
+                    return binds.get(a.id, a) if isinstance(a, ast.Name) and fn is ev else a
+            raise ValueError("no call of %s" % callee)
+        defs["seqSeed"] = tr(arg_of(ev, "SafeLearner", 1))
+        rj = evaluate_of("RejectionCB")
+        defs["rejLearnerSeed"] = tr(arg_of(rj, "SafeLearner", 1))
+        defs["rejRngSeed"] = tr(arg_of(rj, "CobaRandom", 0))
+    except Exception as e:          # source reshaped beyond what is read here: no alarm, the model's own definitions are emitted
+        notes.append("C01Seeds: extraction failed (%s)" % (e,))
+        defs = {}
+    return defs, notes
+
+
+def write_generated_seeds(repo):
+    from core import lean
+    defs, notes = extract_seed_exprs(repo)
+    fb = "(match own with | some _ => own | none => (some exp))"
+    fallback = {"seqSeed": fb, "rejLearnerSeed": fb, "rejRngSeed": fb}
+    extracted = all(k in defs for k in fallback)
+    d = dict(fallback, **defs) if extracted else fallback
+    body = ("-- GENERATED by harness/props/c01.py from coba/evaluators/sequential.py on every run (Python `ast`); do not edit.\n"
+            "-- `own` = the evaluator's `_seed`, `exp` = CobaContext.store['experiment_seed'].  Props/C01.lean proves that the model's\n"
+            "-- `effSeed` is `seqSeed`, and that RejectionCB's two sites agree with it.\n"
+            "namespace Coba.Generated.C01\n"
+            "/-- second argument of `SafeLearner(learner, …)` in SequentialCB.evaluate -/\ndef seqSeed (own : Option Nat) (exp : Nat) : Option Nat := %s\n"
+            "/-- second argument of `SafeLearner(learner, …)` in RejectionCB.evaluate -/\ndef rejLearnerSeed (own : Option Nat) (exp : Nat) : Option Nat := %s\n"
+            "/-- argument of `CobaRandom(…)` in RejectionCB.evaluate -/\ndef rejRngSeed (own : Option Nat) (exp : Nat) : Option Nat := %s\n"
+            "def seedsExtracted : Bool := %s\nend Coba.Generated.C01\n" % (d["seqSeed"], d["rejLearnerSeed"], d["rejRngSeed"], "true" if extracted else "false"))
+    path = os.path.join(lean.LEAN_DIR, "CobaVerif", "Generated", "C01Seeds.lean")
+    old = open(path, encoding="utf-8").read() if os.path.exists(path) else None
+    if old != body:
+        os.makedirs(os.path.dirname(path), exist_ok=True)
+        with open(path, "w", encoding="utf-8") as f:
+            f.write(body)
+    return notes + ["C01Seeds: seqSeed := %s; rejLearnerSeed := %s; rejRngSeed := %s; extracted=%s" % (d["seqSeed"], d["rejLearnerSeed"], d["rejRngSeed"], extracted)]
+
+
 class C01(Property):
     id = "C01"
     prop_modules = ["CobaVerif.Props.C01"]
@@ -1566,7 +1783,9 @@ class C01(Property):
             "CobaContext.learning_info, toy evaluators ignore / clear+flush / only flush it (the last = not process-local clean: model "
             "prediction only), toy learners may be un-copyable or carry a finish() hook; 12 % of the non-base runs are interrupted-and-"
             "resumed runs (result file, part of the record lines kept, second run) compared with runResumed / runResumedPFrom of the model; 10 % of the cases are of "
-            "the seq kind (in-memory environments x scripted learners x built-in SequentialCB objects; the whole Result is predicted by run (seqComps w)); every run "
+            "the seq kind (in-memory environments x scripted learners x built-in SequentialCB objects; the whole Result is predicted by run (seqCompsX w); since phase 5 65 % of them with PMF-answering learners drawn by CobaRandom(evaluator seed or experiment seed), "
+            "learning_info writers, own evaluator seeds, chunk()/chunk(cache=False)/cache() pipelines with Head(k) fan-out behind a shared prefix, and half of those "
+            "with Batch(1-3) sources incl. SafeLearner's orientation probe); every run "
             "draws quiet=True (30 %) and the caller's logger kind (20 % IndentLogger); non-trivial = at least two configurations compared and at least one "
             "interaction row recorded")
     trusted_base = [
@@ -1586,7 +1805,7 @@ class C01(Property):
 
     def pre_build(self):
         # translator tie: regenerate lean/CobaVerif/Generated/C01Config.lean from the CURRENT source of the repo under test
-        return write_generated_config(os.environ.get("COBA_REPO", "/repo"))
+        return write_generated_config(os.environ.get("COBA_REPO", "/repo")) + write_generated_seeds(os.environ.get("COBA_REPO", "/repo"))
 
     def generate(self, rng, tier):
         real_p = 0.022 if tier == "quick" else 0.006
@@ -1624,6 +1843,7 @@ class C01(Property):
         cs.append({"envs": [{"branches": [[["shuffle", 2]]], "log_seed": 3, "logged": True, "n": 8, "na": 3, "prefix": [], "seed": 5, "src": "linear"}], "kind": "builtin", "lrns": [{"tag": 0, "type": "kwargs"}, {"tag": 1, "type": "kwargs"}, {"eps": 0.05, "seed": 4, "type": "eps"}], "mode": "product", "pe": [1], "pl": [2], "pv": [0], "runs": [{"cfg": [1, 0, 0], "how": "inproc", "sched": 0}, {"cfg": [2, 0, 0], "how": "sim", "sched": 296675}], "seed": 2, "single_eval": True, "vals": [{"eval": "ips", "learn": "off", "record": ["reward"], "seed": 2, "type": "seq"}]})
         cs += directed_cases()
         cs += seq_directed_cases()
+        cs += seq_directed_cases5()
         # built-in components
         cs.append({"kind": "builtin", "seed": 1, "envs": [{"src": "linear", "n": 12, "na": 3, "seed": 2, "prefix": [["chunk"]], "branches": [[["shuffle", 2]]]}],
                    "lrns": [{"type": "eps", "eps": 0.1, "seed": 1}, {"type": "pmf", "tag": 1}, {"type": "kwargs", "tag": 2}],
@@ -1746,6 +1966,10 @@ class C01(Property):
             tags.append("seq:rows=%s" % ("0" if not outs[0]["seq_ints"] else "1-5" if len(outs[0]["seq_ints"]) <= 5 else ">5"))
             for r in case["vals"]:
                 tags.append("seq:learn=%s,eval=%s" % (r["learn"], r["eval"]))
+            tags += ["seq:pmf-learner"] * any(r["fmt"] == "pmf" for r in case["lrns"]) + ["seq:info-learner"] * any(r.get("info") for r in case["lrns"])
+            tags += ["seq:val-own-seed"] * any(r.get("seed") is not None for r in case["vals"])
+            tags += ["seq:pipe=%s" % r["pipe"] for r in case["envs"] if r.get("pipe")] + ["seq:shared-chunk-fanout"] * any(r.get("heads") for r in case["envs"])
+            tags += ["seq:orientation-probe"] * any(r.get("batch") and min(r["batch"], len(r["inters"])) == 2 for r in case["envs"]) * any(l["fmt"] == "AP" for l in case["lrns"])
             tags += ["seq:batched-env"] * any(r.get("batch") for r in case["envs"]) + ["seq:failing-read"] * any(r.get("fail") for r in case["envs"])
             tags += ["seq:rejected"] * any(") requires " in l for l in outs[0]["log"])
             if len(set(map(tuple, outs[0]["triples"]))) < len(outs[0]["triples"]) or len({t[1] for t in outs[0]["triples"]}) < len(outs[0]["triples"]):
